@@ -119,6 +119,45 @@ fn self_test() -> Result<usize, String> {
 
 static VIA_TEXT: std::sync::atomic::AtomicU64 = std::sync::atomic::AtomicU64::new(0);
 
+fn check_literal_constructor(i: u64) -> Verdict {
+    let lits = pool::boundary();
+            let (v, forms): (Value, Vec<Expr>) = if i as usize == lits.len() {
+                (Value::None, vec![Expr::none_value(), Expr::value(Value::None), Expr::from(Value::None)])
+            } else {
+                let v = lits[i as usize].clone();
+                let mut forms = vec![Expr::value(v.clone()), Expr::from(v.clone()), Expr::iif(Value::Bool(true), Expr::from(v.clone()), Expr::none_value())];
+                match &v {
+                    Value::Int(x) => {
+                        forms.push(Expr::value(*x));
+                        if let Ok(y) = i64::try_from(*x) {
+                            forms.push(Expr::value(y));
+                        }
+                    }
+                    Value::String(x) => {
+                        forms.push(Expr::value(x.as_str()));
+                        forms.push(Expr::value(x.clone()));
+                    }
+                    Value::Float(x) => forms.push(Expr::value(*x)),
+                    Value::Bool(x) => {
+                        forms.push(Expr::value(*x));
+                        forms.push(Expr::iif(v.clone(), Expr::value(true), Expr::value(false)));
+                    }
+                    Value::Decimal(x) => forms.push(Expr::value(*x)),
+                    Value::DateTime(x) => forms.push(Expr::value(*x)),
+                    Value::Duration(x) => forms.push(Expr::value(*x)),
+                    _ => {}
+                }
+                (v, forms)
+            };
+            for e in forms {
+                let case = EvalCase::plain(e, Value::None);
+                let o = observe(&case);
+                let want: me::MRes = Ok(v.clone());
+                judge(&case, &o.actual, &want).map_err(|i| Issue::new(format!("{}:literal-constructor", i.sig), i.msg))?;
+            }
+            Ok(())
+}
+
 pub fn run(ctx: &Ctx) {
     ctx.set_rule(
         "Generated: every node kind x every ordered operand tuple of the boundary pool and of a mid-range 'plain' pool (exhaustive \
@@ -185,6 +224,80 @@ pub fn run(ctx: &Ctx) {
     }
     ctx.extra("operand_type_cells_covered", serde_json::json!(covered.lock().unwrap().len()));
     ctx.extra("operand_type_cells_with_value_result", serde_json::json!(covered_ok.lock().unwrap().len()));
+
+    // both operands the very same expression (structurally identical subtrees), for values that are not equal to
+    // themselves (NaN and collections holding it), values that are, lookups, casts and conditionals
+    let twins: Vec<EvalCase> = {
+        let f0 = || Expr::Value(Value::Float(0.0));
+        let nan_exprs: Vec<Expr> = vec![
+            Expr::div(f0(), f0()),
+            Expr::float(Expr::value("NaN")),
+            Expr::reff("vnan"),
+            Expr::index(Expr::reff("vl"), reval::expr::Index::Vec(0)),
+            Expr::Vec(vec![Expr::div(f0(), f0())]),
+            Expr::Map([("a".to_string(), Expr::div(f0(), f0()))].into_iter().collect()),
+            Expr::iif(Expr::value(true), Expr::div(f0(), f0()), f0()),
+            Expr::neg(Expr::div(f0(), f0())),
+            Expr::sub(Expr::div(Expr::Value(Value::Float(1.0)), f0()), Expr::div(Expr::Value(Value::Float(1.0)), f0())),
+            Expr::reff("vi"),
+            Expr::add(Expr::reff("vi"), Expr::value(1)),
+            Expr::reff("vnone"),
+            Expr::index(Expr::reff("vl"), reval::expr::Index::Vec(9)),
+            Expr::Value(Value::Float(-0.0)),
+            Expr::value("s"),
+            Expr::Vec(vec![]),
+            Expr::div(Expr::value(1), Expr::value(0)),
+        ];
+        let facts = pool::map(&[
+            ("vnan", Value::Float(f64::NAN)),
+            ("vl", Value::Vec(vec![Value::Float(f64::NAN)])),
+            ("vi", Value::Int(3)),
+            ("vnone", Value::None),
+        ]);
+        let mut out = vec![];
+        for k in crate::data::BINARY_KINDS {
+            for e in &nan_exprs {
+                out.push(EvalCase::plain(crate::data::mk2(k, e.clone(), e.clone()), facts.clone()));
+                out.push(EvalCase::plain(Expr::not(crate::data::mk2(k, e.clone(), e.clone())), facts.clone()));
+                out.push(EvalCase::plain(Expr::iif(crate::data::mk2(k, e.clone(), e.clone()), Expr::value(1), Expr::value(2)), facts.clone()));
+            }
+        }
+        out
+    };
+    ctx.enumerate(
+        "identical-operands",
+        twins.len() as u64,
+        true,
+        |i, acc| {
+            let case = &twins[i as usize];
+            let o = observe(case);
+            acc.cell("twins", nontrivial(&o.model));
+            if i % 29 == 0 {
+                acc.sample("twins", || format!("{} => {}", case.render(), me::show_model(&o.model)));
+            }
+            judge(case, &o.actual, &o.model)?;
+            // and as a rule of a ruleset
+            let via = observe_via_ruleset(case);
+            judge(case, &via, &o.model).map_err(|i| Issue::new(format!("{}:via-ruleset", i.sig), i.msg))
+        },
+        |i| twins[i as usize].to_json(),
+        "evalcase",
+    );
+
+    // every way the public API offers to write a literal: Expr::value(impl Into<Value>), Expr::from(Value), Expr::none_value(),
+    // a Value as the condition of Expr::iif -- each must evaluate to exactly that value
+    let lits = pool::boundary();
+    ctx.enumerate(
+        "literal-constructors",
+        lits.len() as u64 + 1,
+        true,
+        |i, acc| {
+            acc.cell("literal-constructor", true);
+            check_literal_constructor(i)
+        },
+        |i| serde_json::json!({"literal_constructor": i}),
+        "literal",
+    );
 
     let c2 = Cells2::new(pool::reduced());
     ctx.enumerate(
@@ -272,6 +385,9 @@ pub fn run(ctx: &Ctx) {
 }
 
 pub fn replay(j: &serde_json::Value) -> Option<Verdict> {
+    if let Some(i) = j.get("literal_constructor").and_then(|x| x.as_u64()) {
+        return (i <= pool::boundary().len() as u64).then(|| check_literal_constructor(i));
+    }
     if let Some(b) = j.get("fuzz_bytes").and_then(|b| b.as_array()) {
         let bytes: Vec<u8> = b.iter().filter_map(|x| x.as_u64().map(|x| x as u8)).collect();
         return Some(check(&super::c01::random_case(&bytes, 7)));
